@@ -253,8 +253,8 @@ def gen_istream_case(rnd, bufsz, drv, big):
         ops = ops[:200] + [(bufsz, bufsz)] * (total // bufsz + 4)
     maxin = rnd.choice([0, 0, 1, 2, 3, 17, 1000])
     maxout = rnd.choice([0, 0, 1, 5, 1000, 65536])
-    if big and maxout in (1, 5):
-        maxout = 1000
+    if maxout and total // maxout > 600:
+        maxout = max(maxout, total // 300)      # keep the number of library calls (and the model's cost) bounded
     finbuf = rnd.randint(0, 1)
     line = "I %s %d %d %d %s %s %s" % (drv, maxin, maxout, finbuf, H(z),
                                       ",".join(map(str, ws)) or "-",
